@@ -519,6 +519,12 @@ def gen_post(rng, tier, out):
             d = dict(calls)
             d[u] = mutatex(rng, calls[u], "swap", 0)
             emit(d)
+            u2 = rng.choice(scopes)           # out of order AND unfulfilled: "not fulfilled" only
+            if u2 != u and d[u2]:
+                d[u2] = d[u2][:-1]
+            elif len(d[u]) > 2:
+                d[u] = d[u][:-1]
+            emit(d)
         if rng.random() < 0.3:                # the check made on a scope only
             out.append(join(cfg + etoks + interleave(rng, [[in_scope(s, callx_tok(c)) for c in calls[s]] for s in scopes]) +
                             [in_scope(rng.choice(scopes), ":post"), ":post"]))
@@ -615,7 +621,7 @@ def generate(tier, rng):
     prng = __import__("random").Random(rng.randrange(1 << 30))
     extra = []
     for sc in out:
-        if sc.endswith(" :chk") and sc.count(":chk") == 1 and ":left" not in sc and prng.random() < (0.12 if tier == "quick" else 0.2):
+        if sc.endswith(" :chk") and sc.count(":chk") == 1 and ":left" not in sc and prng.random() < 0.12:
             extra.append(sc[:-4] + ":post")
     out += extra
     gen_post(rng, tier, out)
@@ -808,14 +814,19 @@ def shrink(s):
 
 
 LEVEL_TEXT = ("Machine-checked (Coq) theorems over an executable model of the mock matching machinery (expectation flags and counters, "
-              "candidate pruning, call finalisation, end-of-test verdict, failure selection), tied to the real code by a differential run "
+              "candidate pruning, call finalisation, output-parameter copying, end-of-test verdict through checkExpectations() and through "
+              "MockSupportPlugin's recording reporter, failure selection), tied to the real code by a differential run "
               "of the extracted model against mock() on generated scenarios (all permutations + one mutation per position), with the "
               "extracted model-free spec evaluated on the implementation's observations.")
 LEVEL_NOTE = ("Trusted: Coq kernel, extraction, harness and generators. Modelled not verified: the C++ itself. Theorems cover canonical scenarios "
               "(configuration, expectations, calls, final mock().checkExpectations()) over mock() and named scopes with input/output "
               "parameters, onObject in any position and return values, incl. the multiset / strict-sequence verdict (counting theorem) in "
-              "every scope. ignoreOtherParameters, object-less expectations called on an object, a parameter name or object passed twice, "
-              "intermediate check/clear/expectedCallsLeft, enable/disable: model = implementation agreement only. Not modelled: custom "
-              "comparators/copiers, tracing, nested scopes.")
+              "every scope; the same scenarios ending with the plugin's end-of-test check (the list of failures it delivers: each "
+              "incomplete last call once, never 'not fulfilled' on top, exactly one failure when one deviation); and for EVERY scenario "
+              "(ignoreOtherParameters, ambiguous sets, names passed twice, any operations) that the return value and the output bytes a "
+              "call hands back are those of one declared expectation of that function and scope (proved of the model for all states). "
+              "Which expectation is consumed and the diagnoses under ignoreOtherParameters, object-less expectations called on an object, "
+              "a parameter name or object passed twice, intermediate check/clear/expectedCallsLeft, enable/disable: model = implementation "
+              "agreement only. Not modelled: custom comparators/copiers, tracing, nested scopes.")
 TECHNIQUE = "Coq proof over hand-written executable model + extracted-model/implementation correspondence check (differential, permutations + mutations)"
 READY = True
